@@ -184,7 +184,36 @@ func c01Regression() []regCase {
 		}
 		return l
 	}
+	// counts and reference ordinals beyond the two- and three-octet number forms (65535 / 65536 elements, reference
+	// ordinals on either side of 2047 and of 262143): the header or the ordinal then travels in a wider form
+	wide := func(n int) []int32 {
+		l := make([]int32, n)
+		for i := range l {
+			l[i] = int32(i) - 40000
+		}
+		return l
+	}
+	manyObjs := func(n int, again ...int) []interface{} {
+		l := make([]interface{}, 0, n+len(again))
+		for i := 0; i < n; i++ {
+			l = append(l, &zoo.K00{A: int32(i)})
+		}
+		for _, k := range again {
+			l = append(l, l[k])
+		}
+		return l
+	}
+	bigMap := map[int32]int32{}
+	for i := 0; i < 66000; i++ {
+		bigMap[int32(i)] = int32(-i)
+	}
 	return []regCase{
+		{"typed-lists-of-65535-65536-70000-elements", []interface{}{wide(65535), "a", wide(65536), "b", wide(70000), "tail"}},
+		{"untyped-list-of-65536-elements-in-a-field", &zoo.AnyList{L: anyN(65536)}},
+		{"map-of-66000-entries", bigMap},
+		{"reference-ordinals-around-2047", manyObjs(2100, 2044, 2045, 2046, 2047, 2048, 0, 2099)},
+		{"reference-ordinals-around-65535", manyObjs(65600, 65533, 65534, 65535, 65536, 65599)},
+		{"reference-ordinals-around-262143", manyObjs(262200, 262140, 262141, 262142, 262143, 262144, 262199, 1)},
 		// the library's own thresholds met exactly, each followed by further values
 		{"typed-list-of-exactly-64", &zoo.Slices{I32: exact(64), I64: []int64{1, 2}}},
 		{"typed-lists-of-63-64-65", []interface{}{exact(63), exact(64), exact(65), "tail"}},
